@@ -25,6 +25,7 @@ const prelude = `
 (declare-fun bzero (Int) Bytes)
 (declare-fun bempty () Bytes)
 (declare-fun dyntype (Ref) Int)
+(declare-fun eidx (Int Int) Int)
 (declare-sort Time 0)
 (declare-fun zero!Time () Time)
 (declare-fun born (Ref) Int)
@@ -39,7 +40,22 @@ type smtAxiom struct {
 	text string
 }
 
+// EIdx is off+i, kept behind an uninterpreted symbol so that quantifier
+// patterns over element accesses are not destroyed by arithmetic normalisation.
+func EIdx(off, i Term) Term {
+	if off.S == "0" {
+		return i
+	}
+	if _, ok := i.isIntLit(); ok {
+		if _, ok2 := off.isIntLit(); ok2 {
+			return Add(off, i)
+		}
+	}
+	return App(SInt, "eidx", off, i)
+}
+
 var bytesAxioms = []smtAxiom{
+	{"eidx_def", []string{"eidx"}, `(assert (forall ((o Int) (i Int)) (! (= (eidx o i) (+ o i)) :pattern ((eidx o i)))))`},
 	{"blen_nonneg", []string{"blen"}, `(assert (forall ((b Bytes)) (! (>= (blen b) 0) :pattern ((blen b)))))`},
 	{"bempty_len", []string{"bempty"}, `(assert (= (blen bempty) 0))`},
 	{"blen0_empty", []string{"bempty"}, `(assert (forall ((b Bytes)) (! (=> (= (blen b) 0) (= b bempty)) :pattern ((blen b)))))`},
